@@ -72,8 +72,11 @@ type PolVersion struct {
 	Content map[int]string
 	Policy  map[int]string // slot -> value of helm.sh/resource-policy ("" = no annotation)
 	APIVer  map[int]string // slot -> apiVersion override (kinds of AltAPIVersions only)
-	Hooks   []HookSpec
-	DefK    string
+	// Twin: slot -> resource policy of a second resource of the same kind and metadata.name that
+	// lives in DriftOtherNS through an explicit metadata.namespace (present when the key exists)
+	Twin  map[int]string
+	Hooks []HookSpec
+	DefK  string
 }
 
 type PolFamily struct {
@@ -100,8 +103,12 @@ func NewPolFamily(rng *rand.Rand, versions, maxSlots int, hooks bool) PolFamily 
 			sticky[s] = "delete"
 		}
 	}
+	twinSlot := map[int]bool{}
+	for _, s := range pool {
+		twinSlot[s] = rng.Intn(100) < 35
+	}
 	for v := 0; v < versions; v++ {
-		vs := PolVersion{Content: map[int]string{}, Policy: map[int]string{}, APIVer: map[int]string{}, DefK: fmt.Sprintf("d%d", rng.Intn(3))}
+		vs := PolVersion{Content: map[int]string{}, Policy: map[int]string{}, APIVer: map[int]string{}, Twin: map[int]string{}, DefK: fmt.Sprintf("d%d", rng.Intn(3))}
 		for _, s := range pool {
 			if rng.Intn(100) < 60 {
 				vs.Slots = append(vs.Slots, s)
@@ -122,6 +129,21 @@ func NewPolFamily(rng *rand.Rand, versions, maxSlots int, hooks bool) PolFamily 
 			}
 			if alts := AltAPIVersions[PolPool[s].Kind]; len(alts) > 0 {
 				vs.APIVer[s] = alts[rng.Intn(len(alts))]
+			}
+			// twins: not for cluster-scoped kinds, nor where a bystander already lives under that name in ns2
+			if sl := PolPool[s]; sl.Kind != "ClusterRole" && sl.Suffix != "cm-a" && sl.Suffix != "sec" && twinSlot[s] {
+				if rng.Intn(100) < 70 {
+					tp := []string{"", "keep", "delete"}[rng.Intn(3)]
+					if rng.Intn(2) == 0 {
+						// exactly one of the pair carries keep
+						if vs.Policy[s] == "keep" {
+							tp = ""
+						} else {
+							tp = "keep"
+						}
+					}
+					vs.Twin[s] = tp
+				}
 			}
 		}
 		if hooks {
@@ -162,6 +184,14 @@ func (f PolFamily) Files(v int) Files {
 			ann = map[string]string{ref.PolicyAnno: p}
 		}
 		out["templates/"+sl.Suffix+".yaml"] = WithAPIVersion(PolYAML(sl.Kind, "{{ .Release.Name }}-"+sl.Suffix, vs.Content[s], "{{ .Values.k | quote }}", ann), vs.APIVer[s])
+		if tp, ok := vs.Twin[s]; ok {
+			var tann map[string]string
+			if tp != "" {
+				tann = map[string]string{ref.PolicyAnno: tp}
+			}
+			y := WithAPIVersion(PolYAML(sl.Kind, "{{ .Release.Name }}-"+sl.Suffix, vs.Content[s]+"t", "{{ .Values.k | quote }}", tann), vs.APIVer[s])
+			out["templates/"+sl.Suffix+"-twin.yaml"] = strings.Replace(y, "metadata:\n", "metadata:\n  namespace: "+DriftOtherNS+"\n", 1)
+		}
 	}
 	for _, h := range vs.Hooks {
 		nameExpr := "{{ .Release.Name }}-" + h.Name
@@ -186,6 +216,12 @@ func (f PolFamily) Describe(v int) string {
 		x := PolPool[s].Suffix + "=" + vs.Content[s]
 		if av := vs.APIVer[s]; av != "" {
 			x += "@" + av[strings.LastIndex(av, "/")+1:]
+		}
+		if tp, ok := vs.Twin[s]; ok {
+			x += "+twin-in-" + DriftOtherNS
+			if tp != "" {
+				x += "(" + tp + ")"
+			}
 		}
 		if pol := vs.Policy[s]; pol != "" {
 			x += "(" + pol + ")"
